@@ -2,7 +2,7 @@
 (* Trace validation of the real l1.Client against L1.tla.
 
    trace.ndjson holds MANY runs, each introduced by a Reset event.  Every line is
-   {"ev": name, "x": int, "y": int, "q": int, "w": int}.
+   {"ev": name, "x": int, "y": int, "q": int, "w": int, "k": string}.
 
    Who logs what (harness/engines/l1): the scripted L1 provider is gated - every call of the client
    blocks until the scheduler answers it - and the scheduler acts only while the client is blocked.
@@ -10,9 +10,18 @@
      Call*   the client entered a provider method (q = len(update channel) at that moment, -1 while
              the channel does not exist yet)
      Mine / Finalise / Reorg / Push / SubFail   what the scripted L1 node did meanwhile
-     Restart the harness stopped the client and started a new one on the same database
-     Read    Blockchain.L1Head() read by the harness while the client is blocked (x = event id, 0 none)
-     Ret*    the scheduler's answer (x = 1 ok / 0 error, y = value; RetFin: w = 1 when the store
+     Restart the harness stopped the client and started a new one - with a NEW Blockchain object - on
+             the same database
+     Read    Blockchain.L1Head() called and returned by the harness while the client is blocked or
+             stopped (x = event id, 0 none): a read that overlaps nothing
+     ReadStart / ReadEnd   a call of Blockchain.L1Head() by a reader goroutine that OVERLAPS the client's
+             SetL1Head: the store under the Blockchain holds the reader's Get of the L1-head key after
+             it has completed and before it returns.  ReadStart is logged when the reader is parked
+             there (x = the head its Get found; the client is blocked in FinalisedHeight), the
+             scheduler then answers the call, the client runs its setL1Head, and when it is blocked
+             in its next call the reader is released: ReadEnd (x = what L1Head() returned)
+     Ret*    the scheduler's answer (x = 1 ok / 0 error, k = kind of the error: "transport", "timeout",
+             "notfound" (eth.ErrNotFound), "cancel"; y = value; RetFin: w = 1 when the store
              under the Blockchain was armed to fail the next Put of the L1-head record)
      WriteFail  logged by the store wrapper at the Put it failed (x = event id of the head that was
              to be written)
@@ -39,7 +48,7 @@ VARIABLES l,        \* index of the next trace line
           fpend,    \* head persisted by the last setL1Head and not yet seen on the feed (0 none)
           wpend     \* head whose write the last setL1Head was to fail, failure not yet observed (0 none)
 
-tvars == <<vars, l, pend, announce, fpend, wpend>>
+tvars == <<vars, accVars, l, pend, announce, fpend, wpend>>
 NoOblig == announce = 0 /\ fpend = 0 /\ wpend = 0
 NoOblig_ == announce' = 0 /\ fpend' = 0 /\ wpend' = 0
 
@@ -60,6 +69,7 @@ TraceReset ==
   /\ pc' = "chainid" /\ chunk' = Ev_.x /\ cFin' = 0 /\ cTo' = 0 /\ cFound' = FALSE
   /\ buffer' = [h \in Heights |-> 0] /\ stored' = 0 /\ fails' = 0 /\ wfails' = 0 /\ restarts' = 0
   /\ applied' = {} /\ removedSeen' = {} /\ announced' = 0
+  /\ cache' = 0 /\ rd' = Idle /\ nreads' = 0 /\ reported' = 0
 
 Keep == pend' = pend /\ UNCHANGED <<announce, fpend, wpend>>
 
@@ -96,24 +106,26 @@ TraceCallWatch ==
 (* ---- the scheduler answers ---- *)
 Leave(m) == pend = m /\ pend' = "-" /\ Adv
 Ok == Ev_.x = 1
+Out == IF Ok THEN "ok" ELSE Ev_.k            \* the outcome kind of the answer
+KindOK == Out \in Outcomes
 
-TraceRetChainID == IsEvent("RetChainID") /\ Leave("ChainID") /\ ChainID(Ok) /\ NoOblig_
-TraceRetLatest  == IsEvent("RetLatest") /\ Leave("Latest") /\ Latest(Ok) /\ (Ok => Ev_.y = top) /\ NoOblig_
-TraceRetFilter  == /\ IsEvent("RetFilter") /\ Leave("Filter")
+TraceRetChainID == IsEvent("RetChainID") /\ Leave("ChainID") /\ KindOK /\ ChainID(Ok) /\ NoOblig_
+TraceRetLatest  == IsEvent("RetLatest") /\ Leave("Latest") /\ KindOK /\ Latest(Ok) /\ (Ok => Ev_.y = top) /\ NoOblig_
+TraceRetFilter  == /\ IsEvent("RetFilter") /\ Leave("Filter") /\ KindOK
                    /\ Ok => Ev_.y = Cardinality(EventsOf(ChunkFrom, cTo))
                    /\ Filter(Ok) /\ NoOblig_
 TraceRetFin ==
-  /\ IsEvent("RetFin") /\ Leave("Fin") /\ (Ok => Ev_.y = fin)
+  /\ IsEvent("RetFin") /\ Leave("Fin") /\ KindOK /\ (Ok => Ev_.y = fin)
   /\ \/ pc = "fin0" /\ Fin0(Ok) /\ NoOblig_
      \/ /\ pc \in {"catchfin", "tickfin"}
         /\ LET writes == Ok /\ Cand(fin) # {}            \* this setL1Head reaches Blockchain.SetL1Head
                wok == ~writes \/ Ev_.w = 0               \* an armed store fails the Put, if there is one
                head == IF writes THEN HeadOf(fin) ELSE 0 IN
-           /\ (CatchFin(Ok, wok) \/ TickFin(Ok, wok))
+           /\ (CatchFin(Out, wok) \/ TickFin(Out, wok))
            /\ announce' = (IF wok THEN head ELSE 0)
            /\ fpend' = (IF wok THEN head ELSE 0)
            /\ wpend' = (IF wok THEN 0 ELSE head)
-TraceRetWatch == IsEvent("RetWatch") /\ Leave("Watch") /\ Watch(Ok) /\ NoOblig_
+TraceRetWatch == IsEvent("RetWatch") /\ Leave("Watch") /\ KindOK /\ Watch(Ok) /\ NoOblig_
 
 (* ---- observations of the client's effects ---- *)
 TraceNewHead == /\ IsEvent("NewHead") /\ Adv /\ pend' = pend
@@ -128,17 +140,29 @@ TraceWriteFail == /\ IsEvent("WriteFail") /\ Adv /\ pend' = pend
 TraceStopped == IsEvent("Stopped") /\ Adv /\ Keep /\ pend = "-" /\ NoOblig /\ pc = "stopped" /\ UNCHANGED vars
 (* the head is read while the client is blocked in a call or has stopped *)
 TraceRead    == IsEvent("Read") /\ Adv /\ Keep /\ (pend # "-" \/ pc = "stopped") /\ Ev_.x = stored /\ UNCHANGED vars
+(* ... which is ReadStart ; ReadEnd with nothing in between (no read of a reader goroutine is in flight
+   when the harness reads): the accessor side of that pair of steps *)
+ReadAtOnce == rd.pc = "idle" /\ Ev_.x = AccessorView /\ reported' = Ev_.x /\ nreads' = nreads + 1
+              /\ UNCHANGED <<cache, rd>>
+(* a read of a reader goroutine that overlaps the client's setL1Head *)
+TraceReadStart == /\ IsEvent("ReadStart") /\ Adv /\ Keep /\ pend # "-"
+                  /\ ReadStart /\ Ev_.x = rd'.val
+TraceReadEnd   == /\ IsEvent("ReadEnd") /\ Adv /\ Keep /\ (pend # "-" \/ pc = "stopped")
+                  /\ ReadEnd /\ Ev_.x = rd.val /\ rd.val \in rd.seen /\ NotOlder(rd.val, reported)
 
 (* ---- the unobservable step ---- *)
 TraceConsume == pend = "-" /\ Consume /\ l' = l /\ Keep
 
 TraceNext ==
-  \/ TraceReset
-  \/ TraceMine \/ TraceFinalise \/ TraceReorg \/ TracePush \/ TraceSubFail \/ TraceRestart
-  \/ TraceCallChainID \/ TraceCallLatest \/ TraceCallFilter \/ TraceCallFin \/ TraceCallWatch
-  \/ TraceRetChainID \/ TraceRetLatest \/ TraceRetFilter \/ TraceRetFin \/ TraceRetWatch
-  \/ TraceNewHead \/ TraceFeed \/ TraceWriteFail \/ TraceStopped \/ TraceRead
-  \/ TraceConsume
+  \/ TraceReset /\ UNCHANGED act
+  \/ /\ \/ TraceMine \/ TraceFinalise \/ TraceReorg \/ TracePush \/ TraceSubFail \/ TraceRestart
+        \/ TraceCallChainID \/ TraceCallLatest \/ TraceCallFilter \/ TraceCallFin \/ TraceCallWatch
+        \/ TraceRetChainID \/ TraceRetLatest \/ TraceRetFilter \/ TraceRetFin \/ TraceRetWatch
+        \/ TraceNewHead \/ TraceFeed \/ TraceWriteFail \/ TraceStopped
+        \/ TraceConsume
+     /\ AccFollow /\ UNCHANGED act
+  \/ TraceRead /\ ReadAtOnce /\ UNCHANGED act
+  \/ TraceReadStart \/ TraceReadEnd
 
 (* acceptance: some behaviour of L1 (with silent Consumes) matches the whole file *)
 TraceProgress == (l > TLCGet(HW) => TLCSet(HW, l)) /\ TRUE
@@ -146,5 +170,5 @@ TraceAccepted ==
   IF TLCGet(HW) = Len(Trace) + 1 THEN TRUE
   ELSE Print(<<"TRACE-REJECTED-AT", TLCGet(HW)>>, FALSE)
 
-traceview == <<vars, l, pend, announce, fpend, wpend>>
+traceview == <<vars, accVars, l, pend, announce, fpend, wpend>>
 =============================================================================
